@@ -47,7 +47,7 @@ ASSUMPTIONS = [
 BOUNDS = {
     "quick": "point_pointset/pointset: all pairs of {0..3}^2 and {0,1,2}^3; points_segments and "
     "segment_segment_set: 2-d {0..3}^2 (16 points, 240 oriented segments) and 3-d {0,1,2}^3 (27 "
-    "points, 702 oriented segments), all combinations; points_polygon: all 2876 lattice triangles, all "
+    "points, 702 oriented segments), all combinations (segment_segment_set in 2-d also with all coordinates divided by 8); points_polygon: all 2876 lattice triangles, all "
     "3174 simple planar lattice quadrilaterals (convex, non-convex, with a collinear vertex) and 48 "
     "L-shaped hexagons in {0,1,2}^3 x the 81 points of {0,.5,1,1.5,2}^3 with at most one half-integer "
     "coordinate; segments_polygon: the 321 polygons lying in the planes z=1 and x+y+z=3 (all) and x=y "
@@ -158,7 +158,11 @@ def cases(tier):
         for k in range(0, nseg, 8):
             out.append({"part": "ps", "dim": dim, "n": n, "mode": "seg", "idx": [k, min(nseg, k + 8)]})
         for k in range(nseg):
-            out.append({"part": "ss", "dim": dim, "n": n, "idx": k})
+            out.append({"part": "ss", "dim": dim, "n": n, "idx": k, "den": 1})
+            if dim == 2 or tier == "thorough":
+                # the same configuration scaled by 1/8 (exact in binary): absolute
+                # thresholds in the parallel test would show up here
+                out.append({"part": "ss", "dim": dim, "n": n, "idx": k, "den": 8})
     npoly = len(_polygons())
     step = 24
     for k in range(0, npoly, step):
@@ -409,16 +413,19 @@ def _part_ss(case, out, V):
     from porepy.geometry import distances
 
     dim, n, k = case["dim"], case["n"], case["idx"]
+    den = case.get("den", 1)
     base = _segments(dim, n)
+    if den != 1:
+        base = [tuple(tuple(X.F(x, den) for x in p) for p in s) for s in base]
     oriented = _oriented(base)
-    S = np.array([s[0] for s in oriented], dtype=float).T
-    E = np.array([s[1] for s in oriented], dtype=float).T
+    S = np.array([[float(x) for x in s[0]] for s in oriented]).T.copy()
+    E = np.array([[float(x) for x in s[1]] for s in oriented]).T.copy()
     first = base[k]
     exact = [X.sqdist_seg_seg(first[0], first[1], s[0], s[1]) for s in base]
     regimes = [_ss_regime(first, s, d2) for s, d2 in zip(base, exact)]
     for o1, s1 in enumerate((first, first[::-1])):
-        a = np.array(s1[0], dtype=float)
-        b = np.array(s1[1], dtype=float)
+        a = np.array([float(x) for x in s1[0]])
+        b = np.array([float(x) for x in s1[1]])
         try:
             d, c1, c2 = distances.segment_segment_set(a, b, S, E)
             shp_ok = np.shape(d) == (len(oriented),) and np.shape(c1) == (dim, len(oriented)) and np.shape(c2) == (dim, len(oriented))
@@ -433,15 +440,15 @@ def _part_ss(case, out, V):
         for j, s2 in enumerate(oriented):
             ex = _sqrt(exact[j // 2])
             reg = regimes[j // 2]
-            key = ("ss", dim, min(k, j // 2), max(k, j // 2)) if not reg.endswith("endpoint-endpoint") else None
+            key = ("ss", dim, den, min(k, j // 2), max(k, j // 2)) if not reg.endswith("endpoint-endpoint") else None
             if _judge_ss(out, V, dim, s1, s2, d[j], c1[:, j], c2[:, j], ex, "set", key):
-                out.ev(f"ss/{dim}d/set/{reg}", key)
+                out.ev(f"ss/{dim}d/set/{reg}" + ("" if den == 1 else f"/scaled-1/{den}"), key)
         # single-segment sets (size < 4 reshaping path) for the lexicographic orientation
         if o1 == 0:
             for j in range(0, len(oriented), 2):
                 s2 = oriented[j]
                 try:
-                    d1, e1, e2 = distances.segment_segment_set(a, b, np.array(s2[0], dtype=float), np.array(s2[1], dtype=float))
+                    d1, e1, e2 = distances.segment_segment_set(a, b, np.array([float(x) for x in s2[0]]), np.array([float(x) for x in s2[1]]))
                     ok = np.shape(d1) == (1,) and np.shape(e1) == (dim, 1) and np.shape(e2) == (dim, 1)
                 except Exception as e:
                     V.add("segment_segment_set raised", error=repr(e), start=list(s1[0]), end=list(s1[1]),
@@ -454,7 +461,7 @@ def _part_ss(case, out, V):
                     continue
                 if _judge_ss(out, V, dim, s1, s2, d1[0], e1[:, 0], e2[:, 0], _sqrt(exact[j // 2]), "single", None):
                     out.ev(f"ss/{dim}d/single/{regimes[j // 2]}")
-    if not out.samples:
+    if not out.samples and den == 1:
         for j, r in enumerate(regimes):
             if r == "nonparallel/interior-interior":
                 out.samples.append({"function": "segment_segment_set", "segment_1": [list(first[0]), list(first[1])],
